@@ -460,6 +460,7 @@ func (s *recordingSpan) End(options ...trace.SpanEndOption) {
 	s.mu.Lock()
 	if !s.isRecording() {
 		s.mu.Unlock()
+		verifPoint("span.end.ignored", s)
 		return
 	}
 
@@ -485,7 +486,9 @@ func (s *recordingSpan) End(options ...trace.SpanEndOption) {
 
 	if s.executionTracerTaskEnd != nil {
 		s.mu.Unlock()
+		verifPoint("span.end.checked", s)
 		s.executionTracerTaskEnd()
+		verifPoint("span.end.taskended", s)
 		s.mu.Lock()
 	}
 
@@ -496,6 +499,7 @@ func (s *recordingSpan) End(options ...trace.SpanEndOption) {
 		s.endTime = config.Timestamp()
 	}
 	s.mu.Unlock()
+	verifPoint("span.end.marked", s)
 
 	sps := s.tracer.provider.getSpanProcessors()
 	if len(sps) == 0 {
